@@ -83,6 +83,7 @@ static void execute(const Exec &e, const vo::Fail &fail, Result *res = nullptr)
     // continued solve() must then report again at least what it had reported ("can only keep or improve the reported solution")
     bool droppedExact = false;
     ob::PlannerSolution droppedTop(nullptr);
+    int solvesSinceSwitch = 0;  // solve() calls that got past the input-state checks since the latest clear / clearQuery / switch
     try
     {
         for (auto &op : e.hist)
@@ -155,7 +156,12 @@ static void execute(const Exec &e, const vo::Fail &fail, Result *res = nullptr)
                             prevOp = e.hist[b];
                             break;
                         }
+                    // ... unless a solve() since then already went through: then this one is a continued solve of the new epoch
+                    if (solvesSinceSwitch > 0)
+                        prevOp.clear();
                     std::string ctx = opIndex == 0 ? "|first-solve" : prevOp == "Q" ? "|after-clearQuery" : prevOp == "C" ? "|after-clear" : (!prevOp.empty() ? "|after-switch" : "|continued");
+                    if (sv != ob::PlannerStatus::INVALID_START && sv != ob::PlannerStatus::INVALID_GOAL)
+                        ++solvesSinceSwitch;
                     auto usable = [&](const ob::State *x) { return space->satisfiesBounds(x) && P->isValid(x); };
                     if (sv == ob::PlannerStatus::INVALID_START)
                     {
@@ -231,6 +237,7 @@ static void execute(const Exec &e, const vo::Fail &fail, Result *res = nullptr)
             }
             else if (op == "C")
             {
+                solvesSinceSwitch = 0;
                 droppedExact = false;
                 P->planner->clear();
                 rememberQuery(cur);
@@ -242,12 +249,14 @@ static void execute(const Exec &e, const vo::Fail &fail, Result *res = nullptr)
             }
             else if (op == "Q")
             {
+                solvesSinceSwitch = 0;
                 droppedExact = false;
                 P->planner->clearQuery();
                 cur->clearSolutionPaths();
             }
             else if (op == "P1" || op == "P2")
             {
+                solvesSinceSwitch = 0;
                 droppedExact = false;
                 rememberQuery(cur);
                 ob::ProblemDefinitionPtr pd;
